@@ -79,7 +79,15 @@ func checkC16(rep *core.Report) {
 	// ---- R16.2 ----
 	pools := findPools(prog)
 	r7 := r2
-	checkPoolUniformityFor(prog, r7, pools, loops)
+	// the workers make the mirror copies and dispose of those the full mirror queue refuses: a copy returned to the
+	// receive pool with the datagram's own length truncates a later, longer datagram on receive
+	poolFns := append([]*ssa.Function{}, loops...)
+	for _, p := range findPipelines(prog) {
+		if p.worker != nil {
+			poolFns = append(poolFns, p.worker)
+		}
+	}
+	checkPoolUniformityFor(prog, r7, pools, poolFns)
 	for _, fn := range loops {
 		var recv *ssa.UnOp
 		allInstrs(fn, func(ins ssa.Instruction) {
@@ -416,7 +424,12 @@ func checkMirrorHelpers(prog *core.Program, r3 *core.RuleRun) {
 		return r
 	}
 	// valuePlus: v == param + k modulo integer conversions
-	paramPlus := func(fn *ssa.Function, v ssa.Value, pname string) (int64, bool) {
+	// parameters are identified by position (receiver = 0), not by name
+	paramPlus := func(fn *ssa.Function, v ssa.Value, pidx int) (int64, bool) {
+		pname := "\x00"
+		if pidx < len(fn.Params) {
+			pname = fn.Params[pidx].Name()
+		}
 		var walk func(v ssa.Value) (int64, bool)
 		walk = func(v ssa.Value) (int64, bool) {
 			switch x := v.(type) {
@@ -442,14 +455,18 @@ func checkMirrorHelpers(prog *core.Program, r3 *core.RuleRun) {
 		}
 		return walk(v)
 	}
-	fromParam := func(v ssa.Value, pname string) bool {
+	fromParam := func(fn *ssa.Function, v ssa.Value, pidx int) bool {
+		if pidx >= len(fn.Params) {
+			return false
+		}
+		want := fn.Params[pidx]
 		for x := range core.BackwardSlice(v, core.SliceOpts{}) {
-			if p, ok := x.(*ssa.Parameter); ok && p.Name() != pname && p.Name() != "ip" && p.Name() != "u" {
+			if p, ok := x.(*ssa.Parameter); ok && p != want && p != fn.Params[0] {
 				return false
 			}
 		}
 		for x := range core.BackwardSlice(v, core.SliceOpts{}) {
-			if p, ok := x.(*ssa.Parameter); ok && p.Name() == pname {
+			if p, ok := x.(*ssa.Parameter); ok && p == want {
 				return true
 			}
 		}
@@ -480,7 +497,7 @@ func checkMirrorHelpers(prog *core.Program, r3 *core.RuleRun) {
 		p := at(ps, 2)
 		ok := false
 		if p != nil && p.width == 2 && len(ps) == 1 {
-			k, isP := paramPlus(fn, p.val, "n")
+			k, isP := paramPlus(fn, p.val, 2)
 			ok = isP && k == 20
 		}
 		r3.Check(ok, "mirror.IPv4.SetLen", fn.Pos(), "total length @2 = 20 + n, nothing else written", "IPv4 total length is not written as 16 bits of (20 + n) at offset 2 (writes: "+show(ps)+")")
@@ -490,7 +507,7 @@ func checkMirrorHelpers(prog *core.Program, r3 *core.RuleRun) {
 	if fn := prog.Method("mirror", "IPv4", "SetAddrs"); fn != nil {
 		ps := scan(fn)
 		s, d := at(ps, 12), at(ps, 16)
-		ok := len(ps) == 2 && s != nil && d != nil && s.end == 16 && d.end == 20 && fromParam(s.val, "src") && fromParam(d.val, "dst")
+		ok := len(ps) == 2 && s != nil && d != nil && s.end == 16 && d.end == 20 && fromParam(fn, s.val, 2) && fromParam(fn, d.val, 3)
 		r3.Check(ok, "mirror.IPv4.SetAddrs", fn.Pos(), "source @12..16, destination @16..20", "IPv4 addresses are not written as source at 12..16 and destination at 16..20 (writes: "+show(ps)+")")
 	} else {
 		r3.Undecided("mirror.IPv4.SetAddrs", token.NoPos, "method not found")
@@ -531,7 +548,7 @@ func checkMirrorHelpers(prog *core.Program, r3 *core.RuleRun) {
 		p := at(ps, 4)
 		ok := false
 		if p != nil && p.width == 2 && len(ps) == 1 {
-			k, isP := paramPlus(fn, p.val, "n")
+			k, isP := paramPlus(fn, p.val, 2)
 			ok = isP && k == 8
 		}
 		r3.Check(ok, "mirror.UDP.SetLen", fn.Pos(), "UDP length @4 = 8 + n, nothing else written", "UDP length is not written as 16 bits of (8 + n) at offset 4 (writes: "+show(ps)+")")
